@@ -104,7 +104,8 @@ Answer(m, dst, en) ==
             ELSE IF is = {} THEN Fail(m, "unknown_identity")
             ELSE IF \A i \in is : ~m.run[i] THEN Fail(m, "answer_from_stopped_instance")
             ELSE Fail(m, "unsolicited_unicast_offer")
-  IN IF en.ttl # m.cfg.annTTL THEN Fail(m1, "answer_with_wrong_ttl") ELSE m1
+  IN IF \A i \in is : en.ttl # (IF "ttl" \in DOMAIN m.cfg.inst[i] THEN m.cfg.inst[i].ttl ELSE m.cfg.annTTL)
+     THEN Fail(m1, "answer_with_wrong_ttl") ELSE m1
 
 RECURSIVE Tx(_, _, _)
 Tx(m, dst, es) ==
